@@ -114,24 +114,32 @@ structure St where
   next : Nat
   deriving Repr
 
+/-- `task.replace(task_input=(context, *task.task_input))` -/
+def addCtx (tk : Task) : Task := { tk with static := SArg.atom Atom.ctx :: tk.static }
+
+/-- A sequence of `replace_task` calls. -/
+def relabelSeq (g : DiGraph) (pairs : List (Nat × Nat)) : DiGraph :=
+  pairs.foldl (fun g p => replaceTask g p.1 p.2) g
+
 /-- `insert_context(wb, context)`:
-    `for task in wb.tasks: if first parameter is 'context': replace_task(task, task.replace(task_input=(context, *task_input)))` -/
+    `for task in wb.tasks: if first parameter is 'context': replace_task(task, task.replace(task_input=(context, *task_input)))`.
+    `wb.tasks` is a snapshot, so the loop replaces, in node order, exactly the
+    context-taking tasks of the graph it started with; every `Task.replace`
+    makes a new object = a fresh node id. -/
 def insertContext (st : St) (g : DiGraph) : St × DiGraph :=
-  g.nodes.foldl (fun (acc : St × DiGraph) t =>
-    let tk := acc.1.tb.get t
-    if tk.takesCtx then
-      let new := acc.1.next
-      let tk' : Task := { tk with static := SArg.atom Atom.ctx :: tk.static }
-      (⟨(new, tk') :: acc.1.tb, new + 1⟩, replaceTask acc.2 t new)
-    else acc) (st, g)
+  let olds := g.nodes.filter (fun t => (st.tb.get t).takesCtx)
+  let news := List.range' st.next olds.length
+  let tks := olds.map (fun t => addCtx (st.tb.get t))
+  (⟨news.zip tks ++ st.tb, st.next + olds.length⟩, relabelSeq g (olds.zip news))
 
 /-- The pass of `execute_workflow`:
     `wb = WorkflowBuilder(workflow)` (copy);
     `for task in workflow.tasks: wb.replace_task(task, task.replace(task_input=…same…))` -/
 def relabelPass (st : St) (g : DiGraph) : St × DiGraph :=
-  g.nodes.foldl (fun (acc : St × DiGraph) t =>
-    let new := acc.1.next
-    (⟨(new, acc.1.tb.get t) :: acc.1.tb, new + 1⟩, replaceTask acc.2 t new)) (st, g.copy)
+  let olds := g.nodes
+  let news := List.range' st.next olds.length
+  let tks := olds.map st.tb.get
+  (⟨news.zip tks ++ st.tb, st.next + olds.length⟩, relabelSeq g.copy (olds.zip news))
 
 /-- The workflow `execute_workflow` hands to `dispatcher.run`:
     relabel pass, `insert_context`, `Workflow(wb)` (copy). -/
@@ -149,7 +157,7 @@ def calledWorkflow (st : St) (g : DiGraph) : St × DiGraph :=
     in (`Workflow(...)` is a copy), every context-taking task with the context in
     front of its static inputs, nothing re-ordered. -/
 def withContext (tb : Table) : Table :=
-  tb.map (fun p => (p.1, if p.2.takesCtx then { p.2 with static := SArg.atom Atom.ctx :: p.2.static } else p.2))
+  tb.map (fun p => (p.1, if p.2.takesCtx then addCtx p.2 else p.2))
 
 def specDict (tb : Table) (g : DiGraph) : Except Err (List Entry) :=
   asDaskDict (withContext tb) g.copy
